@@ -10,12 +10,12 @@ from vf.scorers import SCORER_NAMES, make_scorer
 from vf.spec import build, make_index, short
 from vf.zoo import DETECTORS, random_detector
 
-SHARDS = {"quick": 8, "thorough": 16}
+SHARDS = {"quick": 16, "thorough": 16}
 WATCHDOG = {"quick": 1800, "thorough": 10800}
 CASES = {"quick": 28, "thorough": 700}
 FLOORS = {
-    "quick": {"distinct_nontrivial": 500, "representations_compared": 1000, "update_pairs": 500,
-              "scorer_representations": 200, "baseline_with_events": 80},
+    "quick": {"distinct_nontrivial": 2700, "representations_compared": 2800, "update_pairs": 5600,
+              "scorer_representations": 200, "baseline_with_events": 150},
     "thorough": {"distinct_nontrivial": 15000, "representations_compared": 40000},
 }
 ANCHORS = [
